@@ -2,25 +2,8 @@
    satisfies the leaf specification sspec. *)
 From Coq Require Import List ZArith NArith String Ascii Bool Arith Lia Permutation.
 Import ListNotations.
-From Dagrt Require Import Lang LangProofs Sched Transform TransformSem TransformBasics TransformHoist
+From Dagrt Require Import Lang LangProofs Sched Transform TransformSem TransformSide TransformBasics TransformHoist
      TransformSpec TransformMappers TransformLeaf TransformStmt.
-
-(* function symbols of an expression / a statement kind *)
-Fixpoint fnames (e : expr) : list string :=
-  match e with
-  | ENot a => fnames a
-  | EIf c t f => fnames c ++ fnames t ++ fnames f
-  | EBin _ a b => fnames a ++ fnames b
-  | ENary o l => match o with NCall f _ => [f] | _ => [] end ++ flat_map fnames l
-  | _ => []
-  end.
-Definition kfnames (k : skind) : list string :=
-  match k with
-  | KAssign _ sub rhs _ => match sub with Some ie => fnames ie | None => [] end ++ fnames rhs
-  | KCall _ f args kw => f :: flat_map fnames args ++ flat_map fnames (map snd kw)
-  | KYield _ _ time e => fnames e ++ fnames time
-  | _ => []
-  end.
 
 (* what map_expressions(substitute, include_lhs=False) returns *)
 Definition ksubst (sb : list (string * string)) (k : skind) : skind :=
@@ -318,13 +301,28 @@ Section Sd.
   Lemma subset_incl a b : subset a b = true -> incl a b.
   Proof. unfold subset. rewrite forallb_forall. intros H x Hx. apply smem_In. now apply H. Qed.
 
-  Lemma rw_order_incl lsr lbr ords s vs :
-    rw_order lsr lbr ords s = Some vs -> incl vs (kind_writes (tkd s)).
+  Lemma sinsert_in x l y : In y (sinsert x l) -> y = x \/ In y l.
+  Proof.
+    induction l as [|z l IH]; cbn [sinsert]; [intros [<-|[]]; now left|].
+    destruct (String.leb x z); cbn [In]; [intros [<-|H]; auto|].
+    intros [<-|H]; [right; now left|]. apply IH in H. destruct H; auto.
+  Qed.
+
+  Lemma ssort_incl l : incl (ssort l) l.
+  Proof.
+    induction l as [|x l IH]; [apply incl_refl|]. unfold ssort. cbn [fold_right]. fold (ssort l).
+    intros y Hy. apply sinsert_in in Hy. destruct Hy as [->|Hy]; [now left|right; now apply IH].
+  Qed.
+
+  Lemma rw_order_incl lsr lbr sds ords s vs :
+    rw_order lsr lbr sds ords s = Some vs -> incl vs (kind_writes (tkd s)).
   Proof.
     unfold rw_order.
     assert (Hc : incl (read_and_written lsr lbr s) (kind_writes (tkd s))).
     { unfold read_and_written. intros x Hx. apply dedup_incl in Hx. apply filter_In in Hx.
       destruct Hx as [_ Hx]. apply smem_In in Hx. exact Hx. }
+    destruct sds.
+    { intros H. inversion H; subst. intros x Hx. apply Hc. now apply ssort_incl. }
     destruct (assoc (tid s) ords) as [o|].
     - destruct (subset o _ && subset _ o && nodupb o) eqn:E; [|discriminate].
       intros H. inversion H; subst. apply andb_true_iff in E. destruct E as [E _].
@@ -339,14 +337,14 @@ Section Sd.
     - apply in_app_iff. now left.
   Qed.
 
-  Theorem ms_sd_spec lsr lbr ords s :
+  Theorem ms_sd_spec lsr lbr sds ords s :
     has_call (tcond s) = false -> loopfree (tkd s) = true ->
     (forall f, In f (kfnames (tkd s)) -> ~ In f (kind_writes (tkd s))) ->
-    forall st l st', ms_sd lsr lbr ords s st = TOk (l, st') -> sspec F dg s st l st'.
+    forall st l st', ms_sd lsr lbr sds ords s st = TOk (l, st') -> sspec F dg s st l st'.
   Proof.
     intros Hnc Hlf Hfn st l st' E. unfold ms_sd in E.
-    destruct (rw_order lsr lbr ords s) as [vs|] eqn:Er; [|discriminate].
-    pose proof (rw_order_incl _ _ _ _ _ Er) as Hvs.
+    destruct (rw_order lsr lbr sds ords s) as [vs|] eqn:Er; [|discriminate].
+    pose proof (rw_order_incl _ _ _ _ _ _ Er) as Hvs.
     destruct vs as [|v vs].
     { unfold ret in E. inversion E; subst. now apply sspec_id. }
     remember (v :: vs) as vs0 eqn:Hvs0. clear Hvs0.
